@@ -451,6 +451,8 @@ class A:
             return 0        # the function is already reported: events its clauses did not get to are not `extra`
         known = set(ALLM) | {'task._TaskList.remove'}
         for ev in self.events(f):
+            if not ev.used and self.wbs_only(ev):
+                continue        # WBS membership bookkeeping (__wbs) is C11's subject
             if not ev.used and ev.kind == 'call' and any(t is not None and t.qual not in known for t in ev.ci.targets):
                 n += 1
                 o.undecided(f, ev.node, ev.node, f"{what}: `{src(ev.node)[:80]}` changes relations through a helper this rule does "
@@ -460,6 +462,15 @@ class A:
                 o.refute(f, ev.node, ev.node, f"{what}: additional relation effect `{src(ev.node)[:80]}` next to the "
                                               f"documented one")
         return n
+
+    def wbs_only(self, ev) -> bool:
+        """the event touches nothing but Task.__wbs"""
+        if ev.kind == 'write':
+            return ev.w.field == '_Task__wbs'
+        if ev.kind == 'call':
+            flds = {fld for t in ev.ci.targets if t is not None for fld, _ in self.eff.writes_star(t) if fld in REL_FIELDS}
+            return bool(flds) and flds <= {'_Task__wbs'}
+        return False
 
     def opaque_helpers(self, f):
         """relation-changing callees of f that are not documented primitives: helpers whose body the clauses do not follow"""
@@ -1357,6 +1368,17 @@ def children_setter(a: A, ctx):
             elif w.kind == 'subscript-store' and isinstance(w.node, ast.Assign) and isinstance(w.node.value, ast.List) \
                     and not w.node.value.elts:
                 clears.append(e)
+            elif w.kind == 'mutate:remove':
+                # taking the old children out one by one: the same as emptying the list only when nobody is spared
+                k, fo = elem_class(a, f, w.node.args[0] if w.node.args else None, e.cn)
+                spared = path_atoms(a, f, e.cn, since=cfg.node_of(fo)) if fo is not None else [None]
+                if k is not None and k[0] == 'copy' and k[1] == FLD and not spared:
+                    o.undecided(f, w.node, w.node, "children setter empties its list by removing the old children one by one")
+                else:
+                    o.refute(f, w.node, w.node, "children setter does not empty the old list: old children are taken out selectively "
+                                                f"(`{src(w.node)}`" + (f" only when `{src(spared[0][0])}`" if spared and spared[0] else '') +
+                             "), the ones that stay keep their OLD position, so the list does not end up in the given order")
+                bad = True
             else:
                 o.undecided(f, w.node, w.node, "children setter edits its own list in a way the rule does not know")
                 bad = True
@@ -2064,9 +2086,8 @@ def move_index(a: A, ctx):
         cfg = cfg_of(f)
         B, AF = f.params[2], f.params[3]
         evs = a.events(f)
-        for e in evs:
-            if e.kind == 'publish':
-                _publish_ok(a, o, f, e, what)
+        if not all([_publish_ok(a, o, f, e, what) for e in evs if e.kind == 'publish']):
+            return
         ws = [e for e in evs if e.kind == 'write' and e.w.field == LIST and a.is_self(f, e.w.recv)]
         rems = [e for e in ws if e.w.kind == 'mutate:remove']
         inss = [e for e in ws if e.w.kind == 'mutate:insert']
@@ -2609,6 +2630,9 @@ def insert_index(a: A, ctx):
         o.site(f, at_ev.stmt or at_ev.node, 'attach: ' + src(at_ev.stmt or at_ev.node))
         # ---- move before the anchor
         mv = [e for e in evs if e.kind == 'call' and e.name == 'move' and isinstance(e.node, ast.Call) and a.is_self(f, e.node.func.value)]
+        if not mv:      # move() itself may have lost its recognisable effect (reported there): find the call by name
+            mv = [Ev('call', c0, cfg.node_containing(c0), 'move') for c0 in facts.calls_named(f, 'move')
+                  if isinstance(c0.func, ast.Attribute) and a.is_self(f, c0.func.value)]
         if len(mv) != 1:
             if not mv:
                 ins = [e for e in evs if e.kind == 'write' and e.w.kind == 'mutate:insert']
@@ -2887,6 +2911,8 @@ def shared_list(a: A, ctx):
             for w in a.eff.direct_writes(f):
                 if w.field != FLD or w.kind != 'store':
                     continue
+                if f.qual not in ALLM and f.qual != 'task.Task.__init__' and not a.is_self(f, w.recv):
+                    continue        # initialisation of another, newly made object (clone): not a mutator of this property
                 if f.qual == 'task.Task.__init__':
                     if isinstance(w.node, ast.Assign) and isinstance(w.node.value, ast.List) and not w.node.value.elts and a.is_self(f, w.recv):
                         o.site(f, w.node, 'created once: ' + src(w.node))
